@@ -1,12 +1,13 @@
 (* Extraction of the C03 models (ExtrOcamlBasic only): the necessity witnesses + the reference decoder that rejects
    them, the multi-DDict hash set, the no-forward-progress watchdog, the literal-buffer placement, the output ring buffer,
-   the history bookkeeping of the block-level API.
+   the history bookkeeping of the block-level API, the table pointers and
+   the dictionary ownership of a context under ZSTD_copyDCtx.
    coqc runs with cwd = coq/, so the relative path below lands in coq/Extract/out/. *)
 From Coq Require Import NArith ZArith List.
 From Coq Require Extraction ExtrOcamlBasic.
 From ZV.Codec Require Import Bytes XXH64 Fse Huf Block Frame.
-From ZV.Safety Require Import DDictHashSet NoProgress Witnesses LitBuffer RingBuffer Continuity CtxPointers.
+From ZV.Safety Require Import DDictHashSet NoProgress Witnesses LitBuffer RingBuffer Continuity CtxPointers DictOwner.
 Extraction Language OCaml.
 Extraction "Extract/out/c03model.ml" witness_table R default_config nostrict_config
   add_all add_ddict get create xxh_hash next_fixed next_prefix np_step np_step_nocheck MAXNP place buf_size ring_trace ring0
-  c_init step step_fixed trace prun.
+  c_init step step_fixed trace prun d_init dtrace.
